@@ -21,10 +21,10 @@ and had to supply a demonstration test that fails with the change and passes
 without it. Each was confirmed in the scratch worktree (existing suite passes,
 demonstration fails with / passes without the change), then applied to /repo,
 checked with `./check <id> quick`, and undone. Patch, demonstration and
-`meta.json` are kept under `/verif/seeded/<id>-<n>/`. {n} changes in thirteen
+`meta.json` are kept under `/verif/seeded/<id>-<n>/`. {n} changes in fourteen
 rounds (the later rounds came with a hint: files not yet touched, options and
 unusual API use, unusual broker behaviour, two application goroutines, faults during
-recovery and timers); {first}
+recovery and timers, effects of repetition over a longer session); {first}
 were caught by the checks as they stood, {cross} only by the check of another
 property ("detected by ..."), the others only after the check was strengthened
 ("detected after ..." says what was missing; nothing was loosened to get
